@@ -13,4 +13,5 @@ for id in "$@"; do
 done
 git -C /repo checkout -- . ; git -C /repo clean -fdq
 cp .target/evidence_keep/*.json evidence/ 2>/dev/null
+git -C /verif checkout -q -- replays 2>/dev/null; git -C /verif clean -fdq replays
 git -C /repo status --short | head -3
